@@ -8,12 +8,14 @@ centres - so which pairs are counted could depend on patch numbering, on which c
 catalog is split.  The property says it does not.
 
 Layout (all lengths in units of p = the largest counted angle, i.e. the upper scale limit at the centre of the first
-redshift bin): a chain of 3-4 patch centres running east-west (alternate centres a little north), neighbouring centres
-s = 1.7 .. 2.1 p apart ("close": linked only through the extents) or far apart (never linked).  Per catalog and patch the
-objects fill a thin east-west strip [-west, +east] x [-0.12 p, 0.12 p] around the centre, west / east drawn per catalog,
-patch and side from narrow (0.3 p) / mid (0.5 p) / wide (s/2 - 0.1 p: up to the border of the patch), with one object near
-each tip so that a sparse catalog realises its extent too.  Two narrow strips facing each other across a close border
-hold no pair within p (gap >= 1.1 p); a wide strip facing a narrow one does (gap <= 0.9 p).
+redshift bin; L = lam * p >= p is the angle a linkage has to allow for - for scales given as physical lengths the code takes
+the angle at the lower end of the redshift range, 1.35 p here, for angular scales L = p): a chain of 3-4 patch centres running
+east-west (alternate centres a little north), neighbouring centres s = L + 0.7 .. 1.1 p apart ("close": linked only through
+the extents) or L + 3.5 .. 4 p apart (never linked).  Per catalog and patch the
+objects fill a thin east-west strip [-west, +east] x [-0.12 p, 0.12 p] around the centre, west / east being narrow (0.3 p),
+mid (0.5 p + 0.6 (L - p)) or wide (s/2 - 0.1 p: up to the border of the patch) per catalog, patch and side (drawn per patch type, see
+[layout]), with one object near each tip so that a sparse catalog realises its extent too.  Two narrow strips facing each other across a close border
+hold no pair within p (gap >= 1.1 p); a wide strip facing a narrow one mostly does (gap s/2 - 0.2 p).
 
 Roles: one catalog is the largest (9-11 rows per patch), one is in between (5-7, sometimes as many as the largest), one
 is sparse (2-3); which of ref / unk / rand plays which role is drawn.
@@ -21,11 +23,12 @@ is sparse (2-3); which of ref / unk / rand plays which role is drawn.
 [classify] describes a scenario from the positions alone (float arithmetic, implementation-independent): for the
 catalogs that enter one linkage (cross-correlation: ref, unk, rand; autocorrelation: ref, rand) and every pair of
 distinct patches that holds a pair of objects of two measured catalogs within (p/8, p]:
-  ordinary  - the extents of the largest catalog alone already say the patches may hold such a pair
-              (d <= r_L[i] + r_L[j] + p)
-  one-sided - they do not, but they do when the extent of the other catalogs is taken on ONE side
-  bridge    - only the extents over all catalogs on BOTH sides say so
-A scenario is kept when it has at least one patch pair that is not ordinary.
+  ordinary    - the extents of the largest catalog alone already say the patches may hold such a pair
+                (d <= r_L[i] + r_L[j] + L)
+  either-side - they do not, but taking the extent over all catalogs on either ONE of the two sides is enough
+  one-sided   - it is enough on one particular side only (the patch whose data reach beyond the largest catalog)
+  bridge      - only the extents over all catalogs on BOTH sides say so
+[draw] keeps a scenario that has such a patch pair (one-sided or bridge) in both linkages where it finds one within 25 draws.
 """
 import math
 
@@ -46,12 +49,22 @@ def ang(u, v):
     return math.degrees(2.0 * math.asin(min(1.0, c / 2.0)))
 
 
-def layout(rng, p_deg):
-    """the shape of a scenario: centres, rows per patch and west / east extent per catalog, patch and side [deg]"""
+PATCH_TYPES = ("compact", "compact", "others-wider", "others-wider", "others-wider", "others-reach", "others-reach", "others-reach", "others-reach",
+               "largest-reaches", "all-reach")
+
+
+def layout(rng, p_deg, lam=1.0):
+    """the shape of a scenario: centres, rows per patch and west / east extent per catalog, patch and side [deg].
+    A patch has ONE radius per catalog (its farthest object, on whichever side), so the extents are drawn per patch type:
+      compact         - every catalog narrow / mid on both sides
+      others-wider    - the largest catalog narrow, the others mid, on both sides (data a little beyond the randoms all around)
+      others-reach    - the largest catalog narrow / mid; one or both of the others wide on ONE side (data beyond the randoms)
+      largest-reaches - the largest catalog wide on one side, the others narrow / mid (data well inside the randoms)
+      all-reach       - every catalog wide on one side (the ordinary shared footprint)"""
     npatch = rng.choice([3, 3, 4])
     gaps = []
     for k in range(npatch - 1):
-        gaps.append(rng.uniform(1.7, 2.1) if (k == 0 or rng.random() < 0.75) else rng.uniform(4.5, 5.0))
+        gaps.append(lam + (rng.uniform(0.7, 1.1) if (k == 0 or rng.random() < 0.75) else rng.uniform(3.5, 4.0)))
     rng.shuffle(gaps)
     xs = [0.0]
     for g in gaps:
@@ -60,22 +73,35 @@ def layout(rng, p_deg):
     roles = list(ROLES); rng.shuffle(roles)
     role = dict(zip(CATS, roles))
     nlarge = rng.choice([9, 10, 11])
-    rows = {"largest": nlarge, "middle": nlarge if rng.random() < 0.15 else rng.choice([5, 6, 7]), "sparse": rng.choice([2, 3])}
-    extent = {}
-    for c in CATS:
-        per_patch = []
-        for k in range(npatch):
+    rows = {"largest": nlarge, "middle": nlarge if rng.random() < 0.15 else rng.choice([6, 7, 8]), "sparse": rng.choice([2, 3])}
+    extent = {c: [] for c in CATS}
+    types = []
+    for k in range(npatch):
+        ptype = rng.choice(PATCH_TYPES)
+        side = rng.choice([0, 1])                    # the side that reaches out: 0 west, 1 east
+        if not 0 <= k + (2 * side - 1) < npatch and rng.random() < 0.8:
+            side = 1 - side                          # mostly towards a neighbour
+        nb = k + (2 * side - 1)
+        gap = gaps[min(k, nb)] if 0 <= nb < npatch else lam + 1.0
+        wide = min(gap, lam + 1.4) / 2.0 - 0.1
+        mid = MID + 0.6 * (lam - 1.0)
+        others = [c for c in CATS if role[c] != "largest"]
+        reaching = {"compact": [], "others-wider": [], "others-reach": rng.choice([others, others[:1], others[1:]]),
+                    "largest-reaches": [c for c in CATS if role[c] == "largest"], "all-reach": list(CATS)}[ptype]
+        for c in CATS:
             sides = []
-            for nb in (k - 1, k + 1):   # west neighbour, east neighbour
-                gap = gaps[min(k, nb)] if 0 <= nb < npatch else 2.0
-                wide = min(gap, 2.4) / 2.0 - 0.1
-                # the largest catalog is mostly narrow (randoms with the smaller footprint), the others mostly not
-                kinds = ("narrow", "narrow", "mid", "wide") if role[c] == "largest" else ("narrow", "mid", "wide", "wide")
-                kind = rng.choice(kinds)
-                sides.append((kind, {"narrow": NARROW, "mid": MID, "wide": wide}[kind]))
-            per_patch.append(sides)
-        extent[c] = per_patch
-    return dict(npatch=npatch, gaps=gaps, cents=cents, role=role, rows={c: rows[role[c]] for c in CATS}, extent=extent)
+            for sd in (0, 1):
+                if c in reaching and sd == side:
+                    sides.append(("wide", wide))
+                elif ptype == "others-wider":
+                    kind = "narrow" if role[c] == "largest" else "mid"
+                    sides.append((kind, {"narrow": NARROW, "mid": mid}[kind]))
+                else:
+                    kind = rng.choice(("narrow", "narrow", "mid"))
+                    sides.append((kind, {"narrow": NARROW, "mid": mid}[kind]))
+            extent[c].append(sides)
+        types.append("%s-%s" % (ptype, "we"[side]) if ptype != "compact" else ptype)
+    return dict(npatch=npatch, gaps=gaps, cents=cents, role=role, rows={c: rows[role[c]] for c in CATS}, extent=extent, types=types)
 
 
 def points(rng, lay, p_deg, cat):
@@ -92,11 +118,12 @@ def points(rng, lay, p_deg, cat):
     return pts, owner
 
 
-def classify(lay, cats, p_deg):
+def classify(lay, cats, p_deg, lam=1.0):
     """cats: name -> (points [deg], owner).  -> {linkage: {"ordinary" | "one-sided" | "bridge": number of patch pairs}},
     and the list of the patch pairs that are not ordinary (for the replay record)"""
     cen = [vec(c) for c in lay["cents"]]
     npatch = lay["npatch"]
+    link = lam * p_deg
     v = {c: [vec(q) for q in cats[c][0]] for c in cats}
     own = {c: cats[c][1] for c in cats}
     rad = {c: [max([ang(u, cen[k]) for u, o in zip(v[c], own[c]) if o == k] or [0.0]) for k in range(npatch)] for c in cats}
@@ -104,7 +131,7 @@ def classify(lay, cats, p_deg):
     for name, (members, measured) in LINKAGES.items():
         big = max(members, key=lambda c: len(v[c]))
         ext = [max(rad[c][k] for c in members) for k in range(npatch)]
-        hist = {"ordinary": 0, "one-sided": 0, "bridge": 0}
+        hist = {"ordinary": 0, "either-side": 0, "one-sided": 0, "bridge": 0}
         for i in range(npatch):
             for j in range(npatch):
                 if i == j:
@@ -116,22 +143,41 @@ def classify(lay, cats, p_deg):
                 if not holds:
                     continue
                 d = ang(cen[i], cen[j])
-                if d <= rad[big][i] + rad[big][j] + p_deg:
+                own_i = d <= rad[big][i] + ext[j] + link     # the largest catalog's own extent for patch i suffices
+                own_j = d <= ext[i] + rad[big][j] + link
+                if d <= rad[big][i] + rad[big][j] + link:
                     kind = "ordinary"
-                elif d <= rad[big][i] + ext[j] + p_deg or d <= ext[i] + rad[big][j] + p_deg:
+                elif own_i and own_j:
+                    kind = "either-side"
+                elif own_i or own_j:
                     kind = "one-sided"
                 else:
                     kind = "bridge"
                 hist[kind] += 1
-                if kind != "ordinary":
+                if kind in ("one-sided", "bridge"):
                     special.append((name, i, j, kind))
         out[name] = hist
     return out, special
 
 
+def draw(rng, p_deg, lam=1.0, attempts=25):
+    """-> (layout, {catalog: (points, owner)}, histogram, special patch pairs): the best of up to [attempts] draws"""
+    best = None
+    for _ in range(attempts):
+        lay = layout(rng, p_deg, lam)
+        drawn = {c: points(rng, lay, p_deg, c) for c in CATS}
+        hist, special = classify(lay, drawn, p_deg, lam)
+        score = len({x[0] for x in special})
+        if best is None or score > best[0]:
+            best = (score, lay, drawn, hist, special)
+        if score == 2:
+            break
+    return best[1:]
+
+
 def describe(lay):
     """the layout as a replay record"""
-    return dict(npatch=lay["npatch"], centre_gaps_in_p=[round(g, 4) for g in lay["gaps"]], role=lay["role"], rows_per_patch=lay["rows"],
+    return dict(npatch=lay["npatch"], patch_types=lay["types"], centre_gaps_in_p=[round(g, 4) for g in lay["gaps"]], role=lay["role"], rows_per_patch=lay["rows"],
                 extent_west_east={c: [[s[0] for s in sides] for sides in lay["extent"][c]] for c in CATS})
 
 
